@@ -1,11 +1,14 @@
 import CfdpVerif.Lemmas.Checksum
+import CfdpVerif.Model.Source
+import CfdpVerif.Lemmas.Monad
 /-!
 # C09 — file checksums are correct for every content, length and chunking
 
 Statements over `Cfdp.Checksum` (model of `NativeFilestore.calculate_checksum/verify_checksum` and
 `calc_modular_checksum`).  For every byte string, every prefix length (also beyond the end of the
-file, where the Python reads short) and every positive chunk length.  The source handler's EOF
-checksum is covered in `Props/C07.lean`/`C12.lean` (it is this function applied to the file).
+file, where the Python reads short) and every positive chunk length.  The last section states the
+EOF clause on the source handler model: every EOF PDU it queues (first, cancel, re-sent) carries this
+function's value for the prefix of the source file it has sent.
 -/
 namespace Cfdp.Checksum.C09
 
@@ -65,5 +68,94 @@ example : (calcChecksum .modular [1, 2, 3, 4, 5] 5 1).toOption = some [6, 2, 3, 
   decide +kernel
 example : (calcChecksum .modular [1, 2, 3, 4, 5] 4 1).toOption = some [1, 2, 3, 4] := by
   decide +kernel
+
+section SourceEof
+open Cfdp
+set_option linter.unusedSimpArgs false
+set_option linter.unusedVariables false
+
+/-! ### the checksum the source places in its EOF PDUs
+
+Every EOF PDU of the source model is queued by `prepareEofPdu` with a checksum computed by
+`checksumCalculation size`; its file size field is the progress.  There are three such sites:
+`fsmFromSendingEof` (all data sent: `size = fileSize = progress`; the whole-stream theorems of
+`Props/C07.lean` pin this EOF down), `noticeOfCancellation` (EOF (cancel): `size = progress`) and the
+re-send of the positive ACK procedure (`size = progress`). -/
+
+/-- the checksum of an EOF PDU is that of the prefix of the source file of the given length -/
+theorem C09_source_eof_pdu (env : Source.Env) (s : Source.SrcSt) (req : Source.PutReq) (rc : RemoteCfg)
+    (src : String) (F cks : List UInt8) (cond size : Nat) (tid : Tid)
+    (hreq : s.putReq = some req) (hsrc : req.src = some src) (hmo : s.p.metadataOnly = false)
+    (hfile : s.fs.get src = some (.file F)) (hrc : s.p.remoteCfg = some rc)
+    (hnull : CksType.ofNat rc.cks ≠ .null)
+    (hcks : calcChecksum (CksType.ofNat rc.cks) F size s.p.segmentLen = .ok cks)
+    (hlen : cks.length = 4) (hcond : s.p.condCodeEof = some cond) (htid : s.p.tid = some tid) :
+    ∃ s', (Source.checksumCalculation size >>= Source.prepareEofPdu env) s = .ok () s' ∧
+      s'.queue = s.queue ++ [Source.mkEof s.p.conf cond cks s.p.progress] ∧ s'.p = s.p := by
+  have hc : Fs.calcChecksum s.fs (CksType.ofNat rc.cks) src size s.p.segmentLen = .ok cks := by
+    simp [Fs.calcChecksum, hnull, hfile, hcks]
+  cases hi : env.cfg.indEofSent <;>
+  · apply Exists.intro
+    constructor
+    · msimp [Source.checksumCalculation, hreq, hsrc, hmo, hrc, hc, Source.prepareEofPdu, Source.getP, hcond, hlen,
+        Source.addPacket, hi, htid, Source.emitInd]
+      rfl
+    · simp
+
+/-- **the EOF PDU sent again by the positive ACK procedure** (regular or cancel) carries the checksum of
+the bytes sent: the prefix of length `progress`, which is also its file size field — the same PDU as
+the one sent first -/
+theorem C09_source_eof_resent (env : Source.Env) (s : Source.SrcSt) (t : Timer) (rc : RemoteCfg)
+    (req : Source.PutReq) (src : String) (F cks : List UInt8) (cond : Nat) (tid : Tid)
+    (ht : s.p.ackTimer = some t) (hrc : s.p.remoteCfg = some rc) (hexp : t.timedOut env.now = true)
+    (hlim : s.p.ackCounter + 1 < rc.ackLim)
+    (hreq : s.putReq = some req) (hsrc : req.src = some src) (hmo : s.p.metadataOnly = false)
+    (hfile : s.fs.get src = some (.file F)) (hnull : CksType.ofNat rc.cks ≠ .null)
+    (hcks : calcChecksum (CksType.ofNat rc.cks) F s.p.progress s.p.segmentLen = .ok cks)
+    (hlen : cks.length = 4) (hcond : s.p.condCodeEof = some cond) (htid : s.p.tid = some tid) :
+    ∃ s', Source.handlePositiveAckProcedures env s = .ok () s' ∧
+      s'.queue = s.queue ++ [Source.mkEof s.p.conf cond cks s.p.progress] := by
+  have hl : ¬ rc.ackLim ≤ s.p.ackCounter + 1 := by omega
+  have hc : Fs.calcChecksum s.fs (CksType.ofNat rc.cks) src s.p.progress s.p.segmentLen = .ok cks := by
+    simp [Fs.calcChecksum, hnull, hfile, hcks]
+  cases hi : env.cfg.indEofSent <;>
+  · apply Exists.intro
+    constructor
+    · msimp [Source.handlePositiveAckProcedures, Source.getP, ht, hrc, hexp, hl, Source.modP,
+        Source.checksumCalculation, hreq, hsrc, hmo, hc,
+        Source.prepareEofPdu, hcond, hlen, Source.addPacket, hi, htid, Source.emitInd]
+      rfl
+    · simp
+
+/-- **the EOF (cancel) PDU** queued by a notice of cancellation (cancel request or a cancelling fault, no
+cancel exchange in progress yet) carries the checksum of the bytes sent so far -/
+theorem C09_source_eof_cancel (env : Source.Env) (s : Source.SrcSt) (rc : RemoteCfg)
+    (req : Source.PutReq) (src : String) (F cks : List UInt8) (cond : Nat) (tid : Tid)
+    (hnc : Source.cancelInProgress s.p = none) (hrc : s.p.remoteCfg = some rc)
+    (hreq : s.putReq = some req) (hsrc : req.src = some src) (hmo : s.p.metadataOnly = false)
+    (hfile : s.fs.get src = some (.file F)) (hnull : CksType.ofNat rc.cks ≠ .null)
+    (hcks : calcChecksum (CksType.ofNat rc.cks) F s.p.progress s.p.segmentLen = .ok cks)
+    (hlen : cks.length = 4) (htid : s.p.tid = some tid) :
+    ∃ s', Source.noticeOfCancellation env cond s = .ok true s' ∧
+      s'.queue = s.queue ++ [Source.mkEof s.p.conf cond cks s.p.progress] := by
+  have hc : Fs.calcChecksum s.fs (CksType.ofNat rc.cks) src s.p.progress s.p.segmentLen = .ok cks := by
+    simp [Fs.calcChecksum, hnull, hfile, hcks]
+  cases hm : s.p.conf.mode <;> cases hi : env.cfg.indEofSent <;> cases hs : s.state <;>
+  · apply Exists.intro
+    constructor
+    · msimp [Source.noticeOfCancellation, hnc, Source.getP, hs,
+        Source.modP, Source.checksumCalculation, hreq, hsrc, hmo, hrc, hc, Source.prepareEofPdu, hlen,
+        Source.addPacket, Source.emitInd, hi, htid, Source.handleEofSent, Source.transmissionMode, hm,
+        Source.startPositiveAckProcedure, Source.resetInternal]
+      rfl
+    · simp
+
+/-- a metadata-only transaction has no file: its EOF PDUs carry the null checksum -/
+theorem C09_source_eof_metadata_only (s : Source.SrcSt) (req : Source.PutReq) (size : Nat)
+    (hreq : s.putReq = some req) (hmo : s.p.metadataOnly = true) :
+    Source.checksumCalculation size s = .ok [0, 0, 0, 0] s := by
+  msimp [Source.checksumCalculation, hreq, hmo]
+
+end SourceEof
 
 end Cfdp.Checksum.C09
